@@ -198,19 +198,26 @@ pub fn decliner_variants(r: &mut Rng, events: &mut Vec<Event>) {
 /// calculator and the session), in a sixth of the runs of the model-judged checks: the library-level analogue
 /// of a crash at an arbitrary point of an evaluation. The evaluation that hits it is lost (nothing to judge);
 /// everything afterwards must follow the models as if it had never happened.
-pub fn unwind_variants(r: &mut Rng, events: &mut Vec<Event>) {
-    if !r.chance(1, 6) || events.is_empty() { return; }
+pub fn unwind_variants(r: &mut Rng, events: &mut Vec<Event>) { unwind_variants_at(r, events, 6, 6) }
+
+/// `run_den`: one run in so many gets the rule; `event_den`: one eligible step in so many hits it
+pub fn unwind_variants_at(r: &mut Rng, events: &mut Vec<Event>, run_den: u64, event_den: u64) {
+    if !r.chance(1, run_den) || events.is_empty() { return; }
     let t0 = events[0].clock.base();
     let mut head: Vec<Event> = Vec::new();
     for (k, lang) in ["en", "tr"].iter().enumerate() {
         head.push(Event { actor: ADMIN, op: Op::Admin(AdminOp::AddRule { lang: lang.to_string(), rule: RuleSpec { id: 990 + k as u32, name: "boomrule".into(), patterns: vec!["boom {NUMBER:n}".into()], result: ResultSpec::Number(0.0), decline_num: 0, decline_den: 0, unwind_den: 1 } }), clock: ClockScript::Frozen { t: t0 } });
     }
     for ev in events.iter_mut() {
-        if !ev.clock.is_frozen() || !r.chance(1, 6) { continue; }
+        if !ev.clock.is_frozen() || !r.chance(1, event_den) { continue; }
         if let Op::Execute { text, .. } | Op::SessionText { text } = &mut ev.op {
             if text.lines.is_empty() { continue; }
             let at = r.usize(text.lines.len());
-            if r.chance(1, 2) {
+            if r.chance(1, 3) {
+                // as the LAST line: everything before it has been evaluated when the callback unwinds
+                text.lines.push(Line::Raw(format!("boom {}", r.below(30))));
+                text.crlf.push(false);
+            } else if r.chance(1, 2) {
                 // on a line of its own, somewhere in the text
                 text.lines.insert(at, Line::Raw(format!("boom {}", r.below(30))));
                 text.crlf.insert(at.min(text.crlf.len()), false);
